@@ -1,16 +1,18 @@
 // Extra X26: iora::core::TokenBucket / RateLimiterMap under the scheduler with virtual time (whole seconds, whole tokens).
 //   drv_s_bucket run <cases.txt> <out.ndjson>
 //   case: <rate> <burst> | a=C1x,S,C2y,Q,W2;b=C1x | random <seed>
-//     C<n><key> = tryConsume(key, n)   R<key> = removeKey(key) (map mode only)   S = sleep 1 s   Q = availableTokens()   W<n> = timeUntilAvailable(n)
+//     C<n><key> = tryConsume(key, n)   R<key> = removeKey(key), K<d> = cleanup(d s) (map mode only)   S = sleep 1 s   O / G = open / wait for the gate (map mode)   Q = availableTokens()   W<n> = timeUntilAvailable(n)
 //   one program  -> mode "bucket": ONE TokenBucket object driven directly (keys ignored; Q and W allowed)
 //   more programs -> mode "map":   RateLimiterMap<std::string> shared by the callers (Q / W skipped)
-// Events: Begin{rate,burst,threads} Consume{t,k,n,ok,t0,t1} Remove{t,k,t0,t1} Avail{v1000,t0} Wait{n,ms,t0} End
+// Events: Begin{rate,burst,threads} Consume{t,k,n,ok,t0,t1} Remove{t,k,t0,t1} Cleanup{t,d,t0,t1} Avail{v1000,t0} Wait{n,ms,t0} End
 #include "iora/core/rate_limiter.hpp"
 #include "vf/exec.hpp"
 #include "vf/sched.hpp"
 #include "vf/trace.hpp"
 #include <cmath>
+#include <condition_variable>
 #include <memory>
+#include <mutex>
 #include <thread>
 struct TP { std::string name; std::vector<std::string> ops; };
 static long long vsec() { return vf::virtualAdvanceNs() / 1000000000LL; }
@@ -34,14 +36,19 @@ static std::string runOne(int rate, int burst, const std::vector<TP> &prog, cons
       return;
     }
     auto m = std::make_shared<iora::core::RateLimiterMap<std::string>>((double)rate, (double)burst);
+    struct Gate { std::mutex m; std::condition_variable cv; bool open = false; };
+    auto gate = std::make_shared<Gate>();
     std::vector<std::thread> th;
     for (auto &tp : prog) {
       vf::nameNextChild(tp.name);
-      th.emplace_back([tr, m, &tp]() {
+      th.emplace_back([tr, m, gate, &tp]() {
         for (auto &op : tp.ops) {
           vf::point("call");
           if (op == "S") { std::this_thread::sleep_for(std::chrono::seconds(1)); continue; }
+          if (op == "O") { { std::lock_guard<std::mutex> lk(gate->m); gate->open = true; } gate->cv.notify_all(); continue; }
+          if (op == "G") { std::unique_lock<std::mutex> lk(gate->m); gate->cv.wait(lk, [&] { return gate->open; }); continue; }
           if (op[0] == 'R' && op.size() >= 2) { std::string key(1, op[1]); long long t0 = vsec(); m->removeKey(key); tr->add(vf::Ev("Remove").str("t", tp.name).str("k", key).i("t0", t0).i("t1", vsec())); continue; }
+          if (op[0] == 'K' && op.size() >= 2) { int d = op[1] - '0'; long long t0 = vsec(); m->cleanup(std::chrono::seconds(d)); tr->add(vf::Ev("Cleanup").str("t", tp.name).i("d", d).i("t0", t0).i("t1", vsec())); continue; }
           if (op[0] != 'C' || op.size() < 3) continue;
           int n = op[1] - '0'; std::string key(1, op[2]);
           long long t0 = vsec();
